@@ -47,6 +47,21 @@ fn main() {
                 let _ = out.flush();
             }
         }
+        "tool" => {
+            // vharness tool <run|brun|cldb|opc|opd> <args...> : the command line tools, in process
+            let name = args[2].clone();
+            let mut av: Vec<String> = vec![name.clone()];
+            av.extend(args[3..].iter().cloned());
+            if name == "cldb" {
+                chialisp::classic::clvm_tools::cmds::cldb(&av);
+            } else {
+                use chialisp::classic::clvm::__type_compatibility__::Stream;
+                let mut s = Stream::new(None);
+                let stage = if name == "run" { 2 } else { 0 };
+                chialisp::classic::clvm_tools::cmds::launch_tool(&mut s, &av, &name, stage);
+                std::io::stdout().write_all(s.get_value().data()).unwrap();
+            }
+        }
         "atomic" => {
             // vharness atomic <gentle|atomic|compile> <input path> <output path> <data file>
             let how = &args[2];
